@@ -11,7 +11,7 @@
      - _new_item_follow is FIRST(beta), plus the follow of the source item when beta is
        nullable, in terms of the validator's FIRST/nullable tables         (nif_spec). *)
 From Coq Require Import NArith List Bool Lia Arith.
-From PV Require Import Spec.Cfg Model.First Model.Closure Validators.TableComplete
+From PV Require Import Spec.Cfg Model.First Model.Closure Model.TableSpec Validators.TableComplete
   Proofs.SetProofs Proofs.CompleteProofs Proofs.FirstProofs Proofs.FollowProofs.
 Import ListNotations.
 Local Open Scope N_scope.
@@ -59,11 +59,7 @@ Qed.
 Section RHS.
   Variable e : N.
 
-  Fixpoint trailing_emptyb (r : list sym) : bool :=
-    match r with
-    | [] => true
-    | x :: r' => if is_EMPTY e x then forallb (is_EMPTY e) r' else trailing_emptyb r'
-    end.
+  Notation trailing_emptyb := (trailing_emptyb e).
 
   Lemma strip_all_empty r : forallb (is_EMPTY e) r = true -> strip e r = [].
   Proof.
@@ -408,6 +404,55 @@ Section ClosureCorrect.
       + apply (IH its w' its' H). apply (loop_skip its i w'); [|exact Hinv].
         intros it0 H0. congruence.
   Qed.
+
+  (* productions of items are productions of the grammar *)
+  Definition valid_items (its : list item) : Prop :=
+    forall it, In it its -> (N.to_nat (it_p it) < length ps)%nat.
+
+  Lemma prods_of_valid b q : In q (prods_of ps b) -> (N.to_nat q < length ps)%nat.
+  Proof.
+    unfold prods_of. intros H. apply in_map_iff in H. destruct H as (k & <- & Hk).
+    apply filter_In in Hk. destruct Hk as [Hk _]. apply in_seq in Hk. rewrite Nat2N.id. lia.
+  Qed.
+
+  Lemma add_prod_valid fol its w q :
+    valid_items its -> (N.to_nat q < length ps)%nat -> valid_items (fst (add_prod fol (its, w) q)).
+  Proof.
+    intros Hv Hq. unfold Closure.add_prod. destruct (find_item q 0 its 0) as [j|].
+    - destruct lr1; [|exact Hv]. destruct (nsubset fol (follow_at its j)); [exact Hv|].
+      cbn [fst]. intros it Hit. apply In_nth_error_iff in Hit. destruct Hit as (i & Hi).
+      rewrite nth_error_set_follow in Hi. destruct (Nat.eqb i j).
+      + destruct (nth_error its i) as [it0|] eqn:E; [|discriminate]. cbn in Hi. inversion Hi; subst it.
+        cbn. apply Hv. eapply nth_error_In. exact E.
+      + apply Hv. eapply nth_error_In. exact Hi.
+    - cbn [fst]. intros it Hit. apply in_app_iff in Hit. destruct Hit as [Hit|[<-|[]]]; [auto|exact Hq].
+  Qed.
+
+  Lemma add_prods_valid fol qs : forall its w,
+    valid_items its -> (forall q, In q qs -> (N.to_nat q < length ps)%nat) ->
+    valid_items (fst (fold_left (add_prod fol) qs (its, w))).
+  Proof.
+    induction qs as [|q r IH]; intros its w Hv Hq; cbn [fold_left]; [exact Hv|].
+    pose proof (add_prod_valid fol its w q Hv (Hq q (or_introl eq_refl))) as H1.
+    destruct (add_prod fol (its, w) q) as [its1 w1]. cbn [fst] in H1.
+    apply IH; [exact H1|]. intros q' Hq'. apply Hq. right. exact Hq'.
+  Qed.
+
+  Lemma closure_loop_valid fuel : forall its w its',
+    closure_loop fuel its w = Some its' -> valid_items its -> valid_items its'.
+  Proof.
+    induction fuel as [|f IH]; intros its w its' H Hv; [discriminate|].
+    cbn [Closure.closure_loop] in H. destruct w as [|i w'].
+    - inversion H; subst. exact Hv.
+    - destruct (nth_error its i) as [it|]; [|eapply IH; eassumption].
+      destruct (item_sym it) as [[t|b]|]; try (eapply IH; eassumption).
+      eapply IH; [exact H|]. apply add_prods_valid; [exact Hv|]. intros q Hq.
+      eapply prods_of_valid. exact Hq.
+  Qed.
+
+  Lemma closure_valid fuel its its' :
+    closure fuel its = Some its' -> valid_items its -> valid_items its'.
+  Proof. unfold Closure.closure. apply closure_loop_valid. Qed.
 
   Lemma loop_inv_init its : loop_inv its (rev (seq 0 (length its))).
   Proof.
